@@ -7,7 +7,7 @@ MANIFEST = {
             "every reply delivery in any order/multiplicity, wake-ups, timeouts, responses/heartbeats/pongs with arbitrary ids, "
             "connection loss; int32(uint32) id wrap explicit): C14_own_reply, C14_receives, C14_timeout, C14_outcome_stable, "
             "C14_no_block, C14_no_leak, C14_fresh_ok, stated at the configuration REGENERATED from the source by `xlate futures` "
-            "(channel capacity, non-blocking signal, what the timeout removes, who stores a future, what a pong removes) with the "
+            "(channel capacity, non-blocking signal, what the timeout removes, who stores a future, what a pong removes, payload-before-signal order at every delivery site, the id expression) with the "
             "obligation C14_source_cfg_good; the model is tied to the real client by running SendSyncRequest/SendAsyncRequest/"
             "SendAsyncResponse/OnCron/OnMessage/OnOpen/OnClose over a fake getty session on generated histories (sequenced with "
             "checkpoints after every event, truly concurrent with 1..256 callers, and a batch with real 20 s timeouts, late and "
@@ -20,7 +20,7 @@ MANIFEST = {
 TABLES = [("futures", "FuturesCfg.v")]
 PROP_FILE = "Props/P_C14.v"
 TRUSTED = vlib.TRUSTED_COMMON + [
-    "tools/xlate futures (go/ast: capacity of Done, select/default around every send on .Done, RemoveMessageFuture in the timeout "
+    "tools/xlate futures (go/ast: order of the `.Response` assignment and the `.Done` signal, `int32(idGenerator.Inc())` ids, capacity of Done, select/default around every send on .Done, RemoveMessageFuture in the timeout "
     "case of syncCallback, `callback != nil` guard of futures.Store/Delete in sendAsync, RemoveMessageFuture in the heartbeat processor)",
     "Go harness remrun14/remruntcp (fake getty.Session, real listener/client/processors; parked deliveries counted from runtime.Stack) and this driver's case printer",
 ]
